@@ -182,6 +182,24 @@ def replay_derivatives(rec) -> dict:
         n += 1
         gs = g.sum(axis=0)
         hs = h.sum(axis=0)
+        # named results per observation, with and without the Hessian
+        for wh in (True, False):
+            nd_ = e.get_value_and_derivatives(betas=betas, database=DB, gradient=True, hessian=wh, bhhh=True,
+                                              aggregation=False, prepare_ids=True, named_results=True, **nd)
+            n += 1
+            path = f'named per observation (hessian={wh})'
+            _cmp_vec(mism, path, p, 'functions', nd_.functions, f)
+            if len(nd_.gradients) != len(f) or (wh and len(nd_.hessians) != len(f)) or len(nd_.bhhhs) != len(f):
+                mism.append(dict(path=path, point=p, what='number of observations', got=[len(nd_.gradients), len(nd_.bhhhs)], want=len(f)))
+                continue
+            for r in rows:
+                if set(nd_.gradients[r].keys()) != set(names):
+                    mism.append(dict(path=path, point=p, what='gradient keys', got=sorted(nd_.gradients[r].keys()), want=names))
+                    break
+                _cmp_vec(mism, path, p, f'gradients[{r}]', [nd_.gradients[r][nm] for nm in names], g[r])
+                _cmp_vec(mism, path, p, f'bhhhs[{r}]', [[nd_.bhhhs[r][a][b] for b in names] for a in names], bh[r])
+                if wh:
+                    _cmp_vec(mism, path, p, f'hessians[{r}]', [[nd_.hessians[r][a][b] for b in names] for a in names], h[r])
         if set(na.gradient.keys()) != set(names):
             mism.append(dict(path='named', point=p, what='gradient keys', got=sorted(na.gradient.keys()), want=names))
         else:
